@@ -415,3 +415,37 @@ Definition with_template (c : excls) (t : option str) : excls :=
   | Some t => mkCls (c_name c) (c_code c) (c_title c) (c_expl c) t true (c_empty c)
                     (c_family c) (c_excluded c) (c_public c)
   end.
+
+(* ------------------------------------------------------------------ one instance answering several requests
+   The state an exception instance carries from one call to the next, as far as the body can see it, is its
+   header list; generate_response deletes Content-Length from it (`del self.content_length`).
+   A redirect (_HTTPMove.__call__) sets self.location to the location resolved for the request being served
+   (Response._make_location_absolute, an input here: [q_location]) - the header setter removes every Location
+   header and appends the new one - and restores the application's value in a `finally`. *)
+Record reqst := mkReq { q_environ : list (str * str); q_accept : accept_in; q_head : bool;
+                        q_location : option str }.
+
+Definition not_cl (kv : str * str) : bool := negb (str_eqb (lower (fst kv)) (A "content-length")).
+Definition not_loc (kv : str * str) : bool := negb (str_eqb (lower (fst kv)) (A "location")).
+
+(* the header list while the request is served *)
+Definition with_location (hs : list (str * str)) (loc : option str) : list (str * str) :=
+  match loc with
+  | None => hs
+  | Some l => filter not_loc hs ++ [(A "Location", l)]
+  end.
+
+Definition obj_step (cfg : tcfg) (cl : excls) (detail comment : str) (explicit : option str)
+           (hs : list (str * str)) (r : reqst) : list (str * str) * resp :=
+  let own := match explicit with Some b => b | None => [] end in
+  (if nonempty own || c_empty cl || q_head r then hs else filter not_cl hs,
+   call cfg cl (mkInp detail comment (with_location hs (q_location r)) (q_environ r))
+        (q_accept r) (q_head r) explicit).
+
+Fixpoint history (cfg : tcfg) (cl : excls) (detail comment : str) (explicit : option str)
+         (hs : list (str * str)) (rs : list reqst) : list resp :=
+  match rs with
+  | [] => []
+  | r :: rest => let p := obj_step cfg cl detail comment explicit hs r in
+                 snd p :: history cfg cl detail comment explicit (fst p) rest
+  end.
